@@ -11,6 +11,11 @@ from ..evidence import graph_evidence
 from .c01 import hexn, DEVS
 
 from .c18_nodes import run_nodes, WORKLOADS as NODE_WORKLOADS  # noqa: F401,E402
+
+
+def run_send_histories(params, known):
+    from .c13 import run_send_histories as run
+    return run(params, known)
 PROP = 'C18'
 
 
